@@ -5,6 +5,7 @@ From AwkV Require Import Layout Carry Proofs_C09.
 From AwkV Require Import Valid Types AtAxis Ops_Struct Proofs_Lists Proofs_ToList Proofs_Carry Proofs_AtAxis Proofs_AtAxisOps Proofs_C02.
 From AwkV Require Import Ops_Reduce Proofs_Reduce Proofs_Reduce2.
 From AwkV Require Import Ops_Sort Proofs_SortRef Proofs_SortRef2.
+From AwkV Require Import Ops_Option Ops_Getitem Ops_Flatten Proofs_Fillna Proofs_Field Proofs_FlattenA Proofs_FlattenB Proofs_Flatten.
 
 Theorem byte_mask_encoding_irrelevant : forall m vw c vs,
   to_list c = Ok vs ->
@@ -92,3 +93,27 @@ Theorem layout_independent_sort : forall asc argsort axis a b vs,
   obs (sort_model asc argsort axis a) = obs (sort_model asc argsort axis b).
 Proof. exact layout_independent_sort_partial. Qed.
 Print Assumptions layout_independent_sort.
+
+
+(* fill_none: also independent of the layout of the value array; [ffrag] contains [frag] (Proofs_Fillna.frag_ffrag) *)
+Theorem layout_independent_fillna : forall a b va vb vs v0s,
+  Valid None a -> Valid None b -> ffrag a = true -> ffrag b = true ->
+  to_list a = Ok vs -> to_list b = Ok vs -> type_of a = type_of b ->
+  to_list va = Ok v0s -> to_list vb = Ok v0s ->
+  obs (fillna_model va a) = obs (fillna_model vb b).
+Proof. exact layout_independent_fillna_partial. Qed.
+Print Assumptions layout_independent_fillna.
+
+(* field projection: every valid layout, no fragment *)
+Theorem layout_independent_field : forall k a b vs,
+  Valid None a -> Valid None b -> to_list a = Ok vs -> to_list b = Ok vs -> type_of a = type_of b ->
+  obs (field_content k a) = obs (field_content k b).
+Proof. exact layout_independent_field_partial. Qed.
+Print Assumptions layout_independent_field.
+
+Theorem layout_independent_flatten_partial : forall a b vs axis,
+  Valid None a -> Valid None b -> frag a = true -> frag b = true -> noempty a = true -> noempty b = true ->
+  to_list a = Ok vs -> to_list b = Ok vs -> type_of a = type_of b ->
+  obs (flatten_model axis a) = obs (flatten_model axis b).
+Proof. exact Proofs_Flatten.layout_independent_flatten_partial. Qed.
+Print Assumptions layout_independent_flatten_partial.
